@@ -22,6 +22,7 @@ TRACE_SET = (
     "openat,open,creat,read,pread64,readv,write,pwrite64,writev,lseek,ftruncate,truncate,fsync,fdatasync,"
     "close,sendfile,copy_file_range,rename,renameat,renameat2,unlink,unlinkat,chmod,fchmod,fchmodat,link,linkat"
 )
+# (every syscall in the set is traced for the whole child; parse_log keeps the ones touching the database)
 MUTATING = {
     "openat", "open", "creat", "write", "pwrite64", "writev", "ftruncate", "truncate", "sendfile", "copy_file_range",
     "rename", "renameat", "renameat2", "unlink", "unlinkat", "link", "linkat",
@@ -51,27 +52,69 @@ def why_unavailable():
     return _why
 
 
-_LINE = re.compile(r"^\d+\s+(\w+)\(")
+_CALL = re.compile(r"^(\d+)\s+(\w+)\((.*?)(?:\)\s+=\s+(-?\d+|\?).*|\s*<unfinished \.\.\.>)$")
+_QUOTED = re.compile(r'"((?:[^"\\]|\\.)*)"')
+_FDARG = re.compile(r"^(\d+)(?:,|$)")
 
 
-def parse_log(path):
-    """List of syscall names (in order) from a strace -o log."""
+def _relevant_path(p, db_path):
+    """The database file itself or a temporary file created next to it."""
+    if p == db_path:
+        return True
+    d, b = os.path.split(p)
+    return d == os.path.dirname(db_path) and (b.startswith("tmp") or b.startswith(os.path.basename(db_path)))
+
+
+def parse_log(path, db_path):
+    """Relevant calls (touching the database file, a temp file next to it, or an fd opened from them), in order.
+
+    Each entry: (name, text, j) where j is the ordinal of this call among ALL invocations of that syscall in the
+    trace - the number strace's `when=` expects when the trace is not path-filtered.
+    """
     calls = []
+    ordinal = {}
+    fdmap = {}
     try:
-        with open(path, errors="replace") as f:
-            for line in f:
-                if "<... " in line and "resumed>" in line:
-                    continue
-                m = _LINE.match(line)
-                if m:
-                    calls.append((m.group(1), line.strip()[:160]))
+        f = open(path, errors="replace")
     except FileNotFoundError:
-        pass
+        return calls
+    with f:
+        for line in f:
+            line = line.rstrip("\n")
+            if "<... " in line and "resumed>" in line:
+                continue
+            m = _CALL.match(line)
+            if not m:
+                continue
+            pid, name, args, ret = m.group(1), m.group(2), m.group(3), m.group(4)
+            ordinal[name] = ordinal.get(name, 0) + 1
+            paths = [bytes(x, "utf-8").decode("unicode_escape", "replace") if "\\" in x else x for x in _QUOTED.findall(args)]
+            rel = False
+            fdm = _FDARG.match(args)
+            fd = (pid, int(fdm.group(1))) if fdm else None
+            if name in ("openat", "open", "creat"):
+                if paths and _relevant_path(paths[0], db_path):
+                    rel = True
+                    if ret not in (None, "?") and int(ret) >= 0:
+                        fdmap[(pid, int(ret))] = paths[0]
+            elif name == "close":
+                if fd in fdmap:
+                    rel = True
+                    del fdmap[fd]
+            elif name in ("sendfile", "copy_file_range"):
+                nums = re.findall(r"\b(\d+)\b", args)[:2]
+                rel = any((pid, int(n)) in fdmap for n in nums)
+            elif paths and name in ("rename", "renameat", "renameat2", "unlink", "unlinkat", "chmod", "fchmodat", "truncate", "link", "linkat"):
+                rel = any(_relevant_path(p, db_path) for p in paths)
+            elif fd is not None and fd in fdmap:
+                rel = True
+            if rel:
+                calls.append((name, line.strip()[:170], ordinal[name], "INJECTED" in line))
     return calls
 
 
 def run_child(job, db_path, workdir, inject=None, timeout=60):
-    """Run one traced child. Returns (returncode, calls, result json or None)."""
+    """Run one traced child. Returns (returncode, relevant calls, result json or None)."""
     jobfile = os.path.join(workdir, "job.json")
     outfile = os.path.join(workdir, "out.json")
     logfile = os.path.join(workdir, "strace.log")
@@ -80,7 +123,8 @@ def run_child(job, db_path, workdir, inject=None, timeout=60):
             os.unlink(p)
     with open(jobfile, "w") as f:
         json.dump(dict(job, path=db_path, out=outfile), f)
-    cmd = ["strace", "-f", "-P", db_path, "-e", f"trace={TRACE_SET}", "-o", logfile]
+    # not path-filtered (-P misses rename(2) onto the path in strace 6.1): relevance is decided by parse_log
+    cmd = ["strace", "-f", "-e", f"trace={TRACE_SET}", "-o", logfile]
     if inject:
         cmd += ["-e", f"inject={inject}"]
     cmd += [sys.executable, "-m", "tfmon.sysmon"]
@@ -98,14 +142,21 @@ def run_child(job, db_path, workdir, inject=None, timeout=60):
                 result = json.load(f)
         except Exception:
             result = None
-    return rc, parse_log(logfile), result
+    return rc, parse_log(logfile, db_path), result
 
 
 def address(calls, k):
-    """strace address ('X', j) of the k-th traced call (0 based)."""
-    name = calls[k][0]
-    j = sum(1 for c in calls[: k + 1] if c[0] == name)
-    return name, j
+    """strace address ('X', j) of the k-th relevant call: j-th invocation of syscall X in the whole trace."""
+    return calls[k][0], calls[k][2]
+
+
+def hit_as_addressed(calls_dry, k, calls_inj, kind):
+    """Did the tampered run hit the call we meant? (process start-up must be deterministic for `when=` to address it)"""
+    name, j = address(calls_dry, k)
+    if kind == "error":
+        return any(c[0] == name and c[2] == j and c[3] for c in calls_inj)
+    # kill: the last relevant call of the tampered run is the addressed one
+    return bool(calls_inj) and calls_inj[-1][0] == name and calls_inj[-1][2] == j
 
 
 class _Snap:
@@ -143,6 +194,9 @@ def kill_sweep(res, s, op, pre_bytes, old, new, scratch, check_snapshots):
             f.write(pre_bytes)
         rc2, calls2, _ = run_child(job, db, wdir, inject=f"{name}:signal=SIGKILL:when={j}")
         res.count("kill.children_killed" if rc2 != 0 else "kill.children_survived")
+        if rc2 == 0 or not hit_as_addressed(calls, k, calls2, "kill"):
+            res.count("kill.misaddressed_skipped")
+            continue
         mon.snaps.append((f"#{k}:syscall.{name}:{calls[k][1][:80]}", kernel_bytes(db)))
     check_snapshots(res, s, op, old, new, mon, scratch, origin="kill")
     shutil.rmtree(wdir, ignore_errors=True)
